@@ -102,6 +102,28 @@ def build_catalogue(tier, seed):
     if out:
         # the same content with CR LF line ends: a path is read with newline translation, a stream is not
         out.append({"kind": "crlf", "text": out[0]["text"].replace("\n", "\r\n")})
+        # sloppy content: CR LF, unpadded TER lines, no terminal oxygens (purity must hold for any content at all)
+        sloppy = []
+        for line in out[-2]["text"].split("\n") if len(out) > 1 else []:
+            if line.startswith("TER"):
+                sloppy.append("TER")
+            elif line[12:16].strip() in ("OXT", "O''"):
+                continue
+            else:
+                sloppy.append(line)
+        multi = collect(gen.structures(max_res=10, allow_hetero=False, allow_truncation=False, multi_chain=True,
+                                       always_ter=True), 3, "sloppy")
+        for s in multi:
+            if s.text.count("TER") >= 2:
+                sloppy = []
+                for line in s.text.split("\n"):
+                    if line.startswith("TER"):
+                        sloppy.append("TER")
+                    elif line[12:16].strip() not in ("OXT", "O''"):
+                        sloppy.append(line)
+                break
+        if sloppy:
+            out.append({"kind": "sloppy-crlf", "text": "\r\n".join(sloppy)})
     base = collect(gen.structures(max_res=12, allow_hetero=False, allow_truncation=False), 6, "base")
     base = [s for s in base if len(s.atoms()) > 15] or base
     for k, el in enumerate(["XX", "QQ"] if tier == "quick" else ["XX", "QQ", "ZZ", "XA"]):
